@@ -441,12 +441,12 @@ func scenarios(thorough bool) []scenario {
 		ms = modernStatusesAll
 	}
 	return []scenario{
-		{"legacy-1.12.2", version.Minecraft_1_12_2.Protocol, mkOps(false, legacyStatuses), 6, 7},
-		{"legacy-1.16.4", version.Minecraft_1_16_4.Protocol, mkOps(false, legacyStatuses), 6, 7},
-		{"legacy117-1.17", version.Minecraft_1_17.Protocol, mkOps(false, legacyStatuses), 6, 7},
-		{"legacy117-1.20.2", version.Minecraft_1_20_2.Protocol, mkOps(false, legacyStatuses), 6, 7},
-		{"modern-1.20.3", version.Minecraft_1_20_3.Protocol, mkOps(true, ms), 4, 4},
-		{"modern-1.21.4", version.Minecraft_1_21_4.Protocol, mkOps(true, ms), 4, 4},
+		{"legacy-1.12.2", version.Minecraft_1_12_2.Protocol, mkOps(false, legacyStatuses), 6, 8},
+		{"legacy-1.16.4", version.Minecraft_1_16_4.Protocol, mkOps(false, legacyStatuses), 6, 8},
+		{"legacy117-1.17", version.Minecraft_1_17.Protocol, mkOps(false, legacyStatuses), 6, 8},
+		{"legacy117-1.20.2", version.Minecraft_1_20_2.Protocol, mkOps(false, legacyStatuses), 6, 8},
+		{"modern-1.20.3", version.Minecraft_1_20_3.Protocol, mkOps(true, ms), 4, 5},
+		{"modern-1.21.4", version.Minecraft_1_21_4.Protocol, mkOps(true, ms), 4, 5},
 	}
 }
 
